@@ -213,6 +213,7 @@ def decide(pid, tier, seed):
     t0 = time.time()
     scratch = tempfile.mkdtemp(prefix=f"actix-verif-{pid}-", dir=os.environ.get("VERIF_SCRATCH", "/var/tmp"))
     results = []
+    dep_scan_error = None
     try:
         with cf.ThreadPoolExecutor(max_workers=8) as ex:
             futs = []
@@ -223,7 +224,11 @@ def decide(pid, tier, seed):
             # the units whose contracts this property's own units ASSUME (stand-ins "proved in unit X"): verified too,
             # only to know whether those assumptions stand on this tree (lib/unitdeps.py)
             own = sorted({u.split("@")[0] for u in pc.get("verus", [])})
-            extra, assumed = unitdeps.closure(own)
+            try:
+                extra, assumed = unitdeps.closure(own)
+            except Exception as e:      # a template the dependency scan cannot read: say so, never guess
+                extra, assumed = set(), {}
+                dep_scan_error = f"dependency scan of the unit templates failed ({e}); the units whose contracts {pid}'s units assume were not re-verified"
             dfuts = []
             for b in sorted(extra):
                 vj = os.path.join(ROOT, "units", b, "variants.json")
@@ -251,6 +256,8 @@ def decide(pid, tier, seed):
             inv.undecided.append(f"code under no contract was modified: {e} (its text differs from inventory.json; nothing is proved about it, so {pid} cannot be answered 'holds' for this tree)")
         for e in inventory.changed_outside_own_units(pid, REPO, cfg, props):
             inv.undecided.append(f"a function of a file {pid} is anchored in was modified, and none of {pid}'s own units has it under contract: {e} (other properties' checks may judge the change; this one cannot answer 'holds')")
+        if dep_scan_error:
+            inv.undecided.append(dep_scan_error)
         inv.cmd = "lib/inventory.py: entry points of the files read by this property's units vs. inventory.json"
         results.append(inv)
         return report(pid, tier, seed, pc, results, time.time() - t0, scratch)
